@@ -531,3 +531,17 @@ _extend("C02",
           "CjsWrap: IsAsyncOrHasAsyncDependency (set in bundler.go), createWrapperForFile, UsesExportsRef, CSS/copy-loader record rewriting and log messages of step 1 are not modelled"],
     scope="internal/linker/linker.go: the entry-point loop of Link (lazy-export entry -> CommonJS, ForceIncludeExportsForEntryPoint), scanImportsAndExports step 1 (ImportStmt/ImportRequire/ImportDynamic effects on Wrap and ExportsKind, the no-implicit-CommonJS-wrapper rule), step 2 (recursivelyWrapDependencies with DidWrapDependencies, hasDynamicExportsDueToExportStar with its visited map, the imported-CommonJS rule) and the NeedsExportsVariable assignment of step 4 — modelled (Impl/CjsWrap.lean) against Spec/Wrap.lean, tied through the exports observation hook (WrapFiles/WrapOpts) on real api.Build runs",
     assumptions=["cjswrap: the pre-link ExportsKind is read from the metafile ('format' of each input; builds with link errors have no metafile and are skipped, ~7%); the runtime's pre-link kind is taken to be ESM; hypotheses WF / Fresh / Covers / RuntimeESM / no-initial-dynamic-fallback are evaluated by the driver (op hyp) on a quarter of the real tables, never violated; Spec/Wrap.lean is the package author's reading of the linker comments and of what lazy evaluation needs"])
+
+# outpaths (C17): how an output PATH is computed
+_extend("C17",
+    lean_modules=["EsbuildModel.Props.C17OutPaths", "EsbuildModel.Props.C17Templates", "EsbuildModel.Props.C17Lca"],
+    theorems=_thms("C17OutPaths", "output_inside_outdir output_inside_outdir_template relative_path_injective default_output_path default_output_path_injective custom_output_path rel_is_relative_path")
+             + _thms("C17Templates", "template_roundtrip template_parse_print_parse substitute_is_textual substitute_leaves_no_placeholder substitute_all_leaves_none substitute_keeps_unknown final_path_is_expansion")
+             + _thms("C17Lca", "lca_is_common_prefix lca_ignores_explicit_paths no_two_outputs_share_a_path collision_is_reported"),
+    kernels=[("outpaths", 12000, 300000)],
+    open=["C17OutPaths.output_inside_outdir for ALL templates / extensions / paths: FALSE of the code (known finding c17-output-escapes-outdir); proved under: no backslash in paths, no '/' in the out-extension, template without '.', name not '.' / '..'",
+          "C17Templates.template_roundtrip for templates ending in '[': FALSE (the text after the last placeholder is dropped: `--entry-names=[name]-x[` writes a.js; observation)",
+          "C17Lca.lca_is_common_prefix for names with upper-case letters or backslashes: FALSE (case-insensitive comparison on every platform: `esbuild src/B/x.js src/b/y.js --outdir=o` writes o/_.._/B/x.js; still inside the output directory; observation; see also known finding c02-files-differing-in-case-are-one-file)",
+          "OutPaths: the composite flow of a user entry point (sanitize -> Join(cwd) -> Rel(outbase) -> strip extension -> PathRelativeToOutbase) and the virtual-namespace branch are modelled and covered by the end-to-end op only, no theorem; symlink realPath, Windows paths and non-ASCII input to sanitize / LCA are not covered"],
+    scope="internal/fs/filepath.go (POSIX: isAbs clean join base dir ext rel) + fs_real.go Join/Rel; logger.PlatformIndependentPathDirBaseExt; internal/bundler/bundler.go PathRelativeToOutbase, lowestCommonAncestorDirectory, sanitizeFilePathForVirtualModulePath, the output-path part of addEntryPoints, the copy-loader asset path of processScannedFiles, the overwrite-input and duplicate-output checks of Compile; internal/config/config.go TemplateToString / HasPlaceholder / SubstituteTemplate; pkg/api/api_impl.go validatePathTemplate; internal/linker/linker.go finalTemplate (computeChunks) and finalRelPath / AbsPath (generateChunksInParallel) — against Spec/OutPath.lean (POSIX pathname resolution, Inside, lowest common ancestor, relative, textual expansion)",
+    assumptions=["outpaths: POSIX only (GOOS=linux, volume names empty); strings are byte strings (sanitize and lowestCommonAncestorDirectory decode UTF-8: model exact on ASCII, the driver refuses other input); clean abstracts Go's lazybuf into a stack of path elements; overwrite check modelled without symbolic links; [hash] values are not predicted (the build op avoids [hash])"])
